@@ -45,6 +45,13 @@ SHAPED = [
     (2, 4, 1, 4, 1, 7, [[(0, 0), (1, 0), (1, 1), (1, 2), (1, 3), (0, 3)], [(0, 1), (0, 2)]]),
     (3, 4, 1, 5, 1, 10, [[(0, 0), (0, 1), (0, 2), (0, 3), (1, 3), (2, 3), (2, 2), (2, 1), (2, 0)], [(1, 0), (1, 1), (1, 2)]]),
 ]
+# blocks whose cells are listed out of positional order (a merge concatenates two lists, a move appends): one-line boards and a 2x2 block
+SHAPED += [
+    (1, 4, 1, 4, 1, 4, [[(0, 2), (0, 3), (0, 0), (0, 1)]]),
+    (4, 1, 1, 4, 1, 4, [[(3, 0), (0, 0), (1, 0), (2, 0)]]),
+    (1, 5, 1, 3, 1, 4, [[(0, 4), (0, 1), (0, 3), (0, 2)], [(0, 0)]]),
+    (2, 2, 1, 4, 1, 4, [[(1, 1), (0, 0), (1, 0), (0, 1)]]),
+]
 # starting points where one bound is already tight, one per guard of candidates(): the update that the guard must
 # forbid is the only tempting one (a non-strict comparison then produces a value outside the bounds)
 SHAPED += [
